@@ -452,6 +452,41 @@ func init() {
 		x.InputID = hashBytes(st)
 		fs.flush(x, 1)
 	}
+	// (5) every value of the first three bytes in front of fixed rests: answers against the table, and the
+	// window handed to Buf must come back unchanged
+	rests := [][]byte{
+		bytes.Repeat([]byte{'x'}, 21),
+		append([]byte("II*\x00\x08\x00\x00\x00"), bytes.Repeat([]byte{0}, 13)...),
+		[]byte("\x18ftypheic\x00\x00\x00\x00mif1heic"),
+		[]byte("\x00\x10JFIF\x00\x01\x01\x00\x00\x48\x00\x48\x00\x00\xff\xe1\x00\x10Ex"),
+	}
+	h5 := func(x *mc.Exec) {
+		b0 := byte(x.All("first-byte", 256))
+		ri := x.All("rest", len(rests))
+		fs := newFailSet("sniff.3byte-prefix")
+		b := append([]byte{b0, 0, 0}, rests[ri]...)
+		ref := append([]byte{}, b...)
+		n := 0
+		for v1 := 0; v1 < 256; v1++ {
+			for v2 := 0; v2 < 256; v2++ {
+				b[1], b[2] = byte(v1), byte(v2)
+				ref[1], ref[2] = b[1], b[2]
+				n++
+				t, err := imagetype.Buf(b)
+				if !bytes.Equal(b, ref) {
+					report(x, fs, ref, "Buf-modified-its-argument")
+					copy(b, ref)
+				}
+				if k := judge(b, t, err); k != "" {
+					report(x, fs, b, k)
+				}
+			}
+		}
+		x.Bulk = int64(n) - 1
+		x.InputID = uint64(b0)<<8 | uint64(ri) | 1<<40
+		x.Outcome = fmt.Sprint(len(fs.order))
+		fs.flush(x, n)
+	}
 	register(&mc.Check{
 		Property: "C09",
 		Spaces: func(tier string) []mc.Space {
@@ -460,6 +495,7 @@ func init() {
 				{Name: "splices", H: h3, NoLevels: true, Rule: "ordered pairs of canonical headers x one or two predicate byte ranges taken from the second; trivial when both headers are the same"},
 				{Name: "lengths-and-suffixes", H: h4, NoLevels: true, Rule: "canonical header x every length 0..24 x suffix menu (1 byte, 4 KiB of 0xFF, two foreign headers, and every signature token any predicate looks for placed at bytes 24.., 28.. and repeated)"},
 			}
+			sp = append(sp, mc.Space{Name: "three-byte-prefixes", H: h5, NoLevels: true, Rule: "all 2^24 values of bytes 0..2 in front of 4 fixed rests (filler, a TIFF header at 3, the rest of an ftyp box, the rest of a JFIF header): Buf against the table, and the 24-byte window must come back unchanged"})
 			if tier == "thorough" {
 				sp = append(sp, mc.Space{Name: "two-byte-perturbations", H: h2(false), NoLevels: true, Rule: "canonical header x every position pair x all 65536 value pairs, Buf against the table"})
 			} else {
